@@ -98,12 +98,12 @@ def retransmit (c : Client) (tx : Txn) (id : TID) : Client × List COut :=
 
 /-- `Client.handleAgentCallback` -/
 def callback (c : Client) (id : TID) (e : CEv) : Client × List COut :=
-  if c.closed then (c, []) else
   match c.lookup id with
   | none =>
-    if c.hasFallback && e != .stopped then (c, [.fallback id e]) else (c, [])
+    if !c.closed && c.hasFallback && e != .stopped then (c, [.fallback id e]) else (c, [])
   | some tx =>
-    if c.maxAttempts ≤ tx.attempt || e.isMsg then (c.erase id, [.call tx.h id e])
+    -- a closed client completes the transaction with what the agent reports (ErrAgentClosed from Agent.Close)
+    if c.closed || c.maxAttempts ≤ tx.attempt || e.isMsg then (c.erase id, [.call tx.h id e])
     else retransmit (c.erase id) tx id
 
 /-- `Client.Start` with a handler (`some h`, `h` names the handler) or `Indicate` (`none`) -/
@@ -164,7 +164,7 @@ def close (c : Client) : Client × Option CErr × List COut :=
   let c := { c with closed := true }
   let (a, _, evs) := c.agent.close
   let c := { c with agent := a }
-  -- every `closed` event reaches handleAgentCallback, which returns at once because c.closed is set
+  -- every `closed` event reaches handleAgentCallback, which completes the transaction with ErrAgentClosed
   let (c, outs) := c.callbacks (evs.map (fun e => (e.id, CEv.agentClosed)))
   let outs := if c.closeConn then outs ++ [.connClose] else outs
   let failed := c.agentCloseErr || (c.closeConn && c.connCloseErr)
